@@ -558,7 +558,9 @@ def leaf_kinds(types, dom, ran, mode='c04'):
         td = types[dom]
         if td['kind'] == 'power' and td['of'] == ran:
             out += ['pwinner', 'pwsum']
-            if not D.cplx:
+            if not D.cplx and (types[ran].get('weighting') or {}).get(
+                    'type') != 'array':
+                # (array-weighted base space: known finding C06-K3, zoo only)
                 out += ['pwnorm', 'pwnorm', 'pwnorm']
             if int(td['n']) == 2 and td.get('default'):
                 out += ['lincomb', 'ufunc_add', 'ufunc_subtract']
@@ -941,7 +943,9 @@ def trees(draw, types, dom, ran, depth, mode='c04', pairs=None,
         both = a['fk'] == 'func' and b['fk'] == 'func'
         if rule == 'sum':
             hows = ['op', 'op', 'op', 'ctor']
-            if dom_space and ran_space:
+            if dom_space and ran_space and (mode != 'c06' or dom == ran):
+                # (C06: OperatorSum(..., tmp_ran, tmp_dom).derivative with
+                # domain != range is known finding C06-K2)
                 hows.append('ctor_tmp')
             node['how'] = draw(st.sampled_from(hows))
             node['fk'] = 'func' if both and node['how'] == 'op' else 'op'
